@@ -415,12 +415,44 @@ class Model:
             func, types, a, kw = args
             path = func.path
             f = _NP_FUNCS.get(path)
-            if f is None and path not in ("sum", "mean", "max", "min", "prod"):
+            if f is None and path not in ("sum", "mean", "max", "min", "prod", "average", "clip", "trace"):
                 raise Uninterpretable(f"numpy function np.{path} is not modelled")
             kw = {k: v for k, v in kw.items() if k not in ("optimize",)}
             if has_fe([list(a), kw]) is not None:
                 raise XRaise("RecursionError", f"np.{path} still receives a FeArray after the arguments were stripped")
             try:
+                if path == "trace":
+                    arr = XArray.from_nested(a[0])
+                    ax1 = int(kw.get("axis1", a[2] if len(a) > 2 else 0)) % arr.ndim
+                    ax2 = int(kw.get("axis2", a[3] if len(a) > 3 else 1)) % arr.ndim
+                    rest = [i for i in range(arr.ndim) if i not in (ax1, ax2)]
+                    moved = arr.transpose(*([ax1, ax2] + rest))
+                    n = min(moved.shape[0], moved.shape[1])
+                    tot = None
+                    for i in range(n):
+                        term = XArray.__getitem__(moved, (i, i))
+                        tot = term if tot is None else tot + term
+                    return tot
+                if path == "average":
+                    arr = XArray.from_nested(a[0])
+                    ax = kw.get("axis", a[1] if len(a) > 1 else None)
+                    w = kw.get("weights", a[2] if len(a) > 2 else None)
+                    if w is None:
+                        return self.nd_method("mean")(arr, axis=ax)
+                    w = XArray.from_nested(w)
+                    num = reduce_plain(XArray._binop(arr, w, lambda x, y: x * y), _UF["add"], ax)
+                    den = reduce_plain(w.broadcast_to(arr.shape) if w.shape != arr.shape else w, _UF["add"], ax)
+                    return num / den if not isinstance(num, XArray) else XArray._binop(num, den, lambda x, y: x / y)
+                if path == "clip":
+                    arr = XArray.from_nested(a[0])
+                    lo = kw.get("a_min", kw.get("min", a[1] if len(a) > 1 else None))
+                    hi = kw.get("a_max", kw.get("max", a[2] if len(a) > 2 else None))
+                    res = arr
+                    if lo is not None:
+                        res = XArray._binop(res, lo, _UF["maximum"])
+                    if hi is not None:
+                        res = XArray._binop(res, hi, _UF["minimum"])
+                    return res
                 if path in ("sum", "mean", "max", "min", "prod"):
                     ax = kw.get("axis", a[1] if len(a) > 1 else None)
                     arr = XArray.from_nested(a[0])
